@@ -30,6 +30,9 @@ macro_rules! own_kind {
         fn post_nodes(n: &N) -> Vec<N> {
             n.postorder().search_nodes()
         }
+        fn degs(n: &N) -> String {
+            format!("deg={}/{}", n.out_degree(), n.in_degree())
+        }
         fn find_nb(n: &N, k: &usize) -> Option<N> {
             n.find_outbound(k)
         }
@@ -44,6 +47,9 @@ macro_rules! own_kind {
         }
         fn post_nodes(n: &N) -> Vec<N> {
             n.order().post().search_nodes()
+        }
+        fn degs(n: &N) -> String {
+            format!("deg={}", n.degree())
         }
         fn find_nb(n: &N, k: &usize) -> Option<N> {
             n.find_adjacent(k)
@@ -108,6 +114,7 @@ macro_rules! own_mod {
                         slots[i] = s;
                     };
                     let mut dup_result: Option<(usize, usize, bool)> = None;
+                    let mut take_check: Option<(usize, Option<String>, Option<String>)> = None;
                     let r = std::panic::catch_unwind(std::panic::AssertUnwindSafe(|| -> Option<String> {
                         match t[0] {
                             "own.new" => {
@@ -157,6 +164,25 @@ macro_rules! own_mod {
                                 if let Some(Slot::Graph(g)) = slots.get_mut(p(1)) {
                                     drop(g.remove(&p(2)));
                                 }
+                            }
+                            "own.take" => {
+                                // remove from the container and keep what it returns: the container may have been the only owner
+                                let before = match slots.get(p(1)) {
+                                    Some(Slot::Graph(g)) => g.get(&p(2)).map(|n| degs(&n)), // temporary handle, gone again
+                                    _ => None,
+                                };
+                                let r = match slots.get_mut(p(1)) {
+                                    Some(Slot::Graph(g)) => g.remove(&p(2)),
+                                    _ => None,
+                                };
+                                take_check = Some((p(2), before, r.as_ref().map(degs)));
+                                set(&mut slots, p(3), r.map_or(Slot::Empty, Slot::Node));
+                            }
+                            "own.deg" => {
+                                return Some(match slots.get(p(1)) {
+                                    Some(Slot::Node(n)) => degs(n),
+                                    _ => "deg=-".into(),
+                                });
                             }
                             "own.get" => {
                                 let r = match slots.get(p(1)) {
@@ -272,6 +298,15 @@ macro_rules! own_mod {
                     }));
                     let released: Vec<(usize, bool)> = log.lock().unwrap().clone();
                     let mut orig: Vec<usize> = released.iter().filter(|x| x.1).map(|x| x.0).collect();
+                    // ---- oracle (C18): remove hands out the inserted node itself, edges and all
+                    if let Some((k, before, after)) = take_check {
+                        if before != after {
+                            let o = if ctx.has("c18") { "c18" } else { "c19" };
+                            if ctx.has(o) {
+                                ctx.fail(case, li, o, format!("Graph::remove({k}) returned a node with {:?} although the member had {:?} just before: remove must hand out the inserted node itself", after, before));
+                            }
+                        }
+                    }
                     // ---- oracle (C19)
                     if ctx.has("c19") {
                         let mut sorted = orig.clone();
@@ -303,8 +338,9 @@ macro_rules! own_mod {
                     match r {
                         Err(_) => {
                             ctx.outs.push("panic".into());
-                            if ctx.has("c19") {
-                                ctx.fail(case, li, "c19", format!("`{raw}` panicked"));
+                            if !ctx.quiet && !ctx.oracles.is_empty() {
+                                let o = ctx.oracles[0].clone();
+                                ctx.fail(case, li, &o, format!("`{raw}` panicked"));
                             }
                             return;
                         }
@@ -376,7 +412,7 @@ pub fn gen_history(rng: &mut crate::rng::Rng, fl: &str, id: &str, nnodes: usize,
         let a = rng.below(nnodes);
         let s = nnodes + rng.below(nscratch);
         let si = s - nnodes;
-        match rng.below(25) {
+        match rng.below(27) {
             16 | 17 => l.push(format!("own.try {a} {} {}", if rng.chance(10) { a } else { rng.below(nnodes) }, rng.below(3))),
             18 => l.push(format!("own.disc {a} {}", if rng.chance(10) { a } else { rng.below(nnodes) })),
             19 => {
@@ -399,6 +435,13 @@ pub fn gen_history(rng: &mut crate::rng::Rng, fl: &str, id: &str, nnodes: usize,
                 l.push(format!("own.post {a} {s}"));
                 scratch_kind[si] = 2;
             }
+            25 => {
+                // a connected node whose only owner is the container, taken back out of it
+                l.push(format!("own.take {g} {} {s}", rng.below(nnodes)));
+                scratch_kind[si] = 1;
+                l.push(format!("own.deg {s}"));
+            }
+            26 => l.push(format!("own.deg {a}")),
             0 | 1 => l.push(format!("own.connect {a} {} {}", if rng.chance(15) { a } else { rng.below(nnodes) }, rng.below(3))),
             2 => {
                 l.push(format!("own.clone {a} {s}"));
